@@ -76,6 +76,9 @@ def sample_params_of(spec, index=None):
     With `index` (a permuted, non-default pandas index) the array-valued parameters are passed as
     pandas Series carrying that index: rows must still be paired by position, never by label."""
     sp = {}
+    if (len(spec.get("w") or ()) + len(spec.get("ids") or ())) % 2 == 1:
+        # an unused (None-valued) sample parameter listed first must be skipped without affecting the others
+        sp["unused"] = None
     wrap = (lambda a: pd.Series(a, index=index)) if index is not None else (lambda a: a)
     if spec.get("w") is not None:
         sp["sample_weight"] = wrap(np.array([float(F(x)) for x in spec["w"]]))
